@@ -15,16 +15,20 @@ import (
 	"crypto/x509"
 	"encoding/base64"
 	"encoding/xml"
+	"errors"
 	"fmt"
 	"html"
 	"io"
+	"io/fs"
 	"net/http"
 	"net/http/httptest"
 	"net/url"
 	"os"
 	"regexp"
 	"runtime"
+	"sort"
 	"strings"
+	"syscall"
 	"time"
 
 	"github.com/beevik/etree"
@@ -960,6 +964,85 @@ func (c *Ctx) genC06() {
 		c.emit("idpserve", sc.toks(), impl, sc.scopeOracle(d, note))
 	}
 	c.signerFaults()
+	c.abortedReplies()
+}
+
+// shortWriter: a client that goes away — the reply can be written only in part
+type shortWriter struct {
+	h     http.Header
+	room  int
+	code  int
+	wrote int
+}
+
+func (w *shortWriter) Header() http.Header { return w.h }
+func (w *shortWriter) WriteHeader(c int)   { w.code = c }
+func (w *shortWriter) Write(p []byte) (int, error) {
+	if w.room <= 0 {
+		return 0, errors.New("write: broken pipe")
+	}
+	n := len(p)
+	if n > w.room {
+		n = w.room
+	}
+	w.room -= n
+	w.wrote += n
+	if n < len(p) {
+		return n, errors.New("write: broken pipe")
+	}
+	return n, nil
+}
+
+// abortedReplies: a reply that could not be written (the client went away after 0, 10, 500 bytes) followed by another user's
+// login at another SP on the same IdP value: the second reply is one form, for the second user's SP, about the second user.
+func (c *Ctx) abortedReplies() {
+	now := baseTime
+	saml.TimeNow = func() time.Time { return now }
+	saml.Clock = dsig.NewFakeClockAt(now)
+	saml.RandReader = &detReader{c: c}
+	xmlenc.RandReader = &detReader{c: c}
+	k := c.key("idp")
+	mk := func(entity string) *saml.EntityDescriptor {
+		return &saml.EntityDescriptor{EntityID: entity, SPSSODescriptors: []saml.SPSSODescriptor{{
+			AssertionConsumerServices: []saml.IndexedEndpoint{{Binding: saml.HTTPPostBinding, Location: entity + "/acs", Index: 1}}}}}
+	}
+	mdA, mdB := mk("https://sp-a.example.com"), mk("https://sp-b.example.com")
+	for round := 0; round < 12; round++ {
+		room := []int{0, 10, 500, 3000}[round%4]
+		why := ""
+		res := safely(func() string {
+			reg := &rollingRegistry{md: mdA}
+			sess := &saml.Session{ID: "s-a", NameID: "alice-nameid", UserName: "alice", CreateTime: now, ExpireTime: now.Add(time.Hour), Index: "i-a"}
+			idp := &saml.IdentityProvider{Key: k.Key, Certificate: k.Cert, Logger: logger.DefaultLogger, MetadataURL: mustURL(idpMetadataURL), SSOURL: mustURL(idpSSOURL),
+				ServiceProviderProvider: reg, SessionProvider: fixedSession{sess}}
+			r, _ := http.NewRequest("GET", "https://idp.example.com/login/a", nil)
+			idp.ServeIDPInitiated(&shortWriter{h: http.Header{}, room: room}, r, mdA.EntityID, "rs-a")
+			// the next visitor
+			reg.md = mdB
+			idp.SessionProvider = fixedSession{&saml.Session{ID: "s-b", NameID: "bob-nameid", UserName: "bob", CreateTime: now, ExpireTime: now.Add(time.Hour), Index: "i-b"}}
+			w := httptest.NewRecorder()
+			idp.ServeIDPInitiated(w, r, mdB.EntityID, "rs-b")
+			body := w.Body.String()
+			forms := strings.Count(body, "<form")
+			if forms != 1 {
+				return fmt.Sprintf("forms=%d", forms)
+			}
+			if strings.Contains(body, "sp-a.example.com") {
+				return "mentions-previous-sp"
+			}
+			v, _ := inputValOf([]byte(body), "SAMLResponse")
+			raw, _ := base64.StdEncoding.DecodeString(v)
+			if bytes.Contains(raw, []byte("alice-nameid")) || !bytes.Contains(raw, []byte("bob-nameid")) {
+				return "wrong-user"
+			}
+			return "one-form"
+		})
+		if res != "one-form" {
+			why = fmt.Sprintf("key=c06-scope:after-aborted-reply a reply to alice (SP A) was cut after %d bytes; the next reply, to bob at SP B, is not one form for SP B about bob: %s", room, res)
+		}
+		c.count("c06-aborted-reply", fmt.Sprintf("room=%d -> %s", room, res))
+		c.emitOneWay("abortedreply", []string{fmt.Sprint(room)}, res, why)
+	}
 }
 
 // faultySigner: an external signer (HSM, KMS) that fails on chosen calls
@@ -1041,6 +1124,79 @@ func (c *Ctx) signerFaults() {
 				c.emitOneWay("signerfault", []string{encBool(enc), encStr(method), encStr(fmt.Sprint(fail))}, strings.SplitN(res, ":", 2)[0], why)
 			}
 		}
+	}
+}
+
+// e2eKeyRotation: one IdentityProvider value for the life of a deployment; the SP rotates its key pair, publishes new metadata
+// under the same entity ID, re-registers, and signs in again: every sign-in is accepted by the SP *as it is now* and carries the
+// session's name identifier ("the SP's own published metadata, serialized and re-parsed, is sufficient registration" — each time).
+func (c *Ctx) e2eKeyRotation() {
+	t0 := ms(baseTime)
+	cur := time.UnixMilli(t0).UTC()
+	saml.TimeNow = func() time.Time { return cur }
+	saml.Clock = dsig.NewFakeClockAt(cur)
+	saml.MaxIssueDelay, saml.MaxClockSkew = 90*time.Second, 180*time.Second
+	saml.RandReader = &detReader{c: c}
+	xmlenc.RandReader = &detReader{c: c}
+	sess := sessS{NameID: "rotating-user", Index: "idx-rot", UserName: "alice", Email: "alice@example.com"}
+	for _, plan := range [][]string{{"sp", "sp2", "sp"}, {"sp2", "ec256", "sp"}} {
+		idp := c.newIDPX(nil, sess.real(), idpConf{})
+		reg := &rollingRegistry{}
+		idp.ServiceProviderProvider = reg
+		why := ""
+		var seq []string
+		res := safely(func() string {
+			idpMD, err := publish(idp.Metadata())
+			if err != nil {
+				return "err idp-metadata"
+			}
+			for round, keyName := range plan {
+				seq = append(seq, keyName)
+				sp := c.buildSP(e2eCfg{EntityID: "https://sp.example.com/rotating", KeyName: keyName, Binding: "redirect"}, idpMD)
+				spMD, err := publish(sp.Metadata())
+				if err != nil {
+					return "err sp-metadata"
+				}
+				reg.md = spMD
+				req, err := sp.MakeAuthenticationRequest(sp.GetSSOBindingLocation(saml.HTTPRedirectBinding), saml.HTTPRedirectBinding, saml.HTTPPostBinding)
+				if err != nil {
+					return "err sp-request"
+				}
+				u, err := req.Redirect("relay", sp)
+				if err != nil {
+					return "err sp-request"
+				}
+				w := httptest.NewRecorder()
+				idp.ServeSSO(w, httptest.NewRequest("GET", u.String(), nil))
+				body := w.Body.String()
+				m := formActionRe.FindStringSubmatch(body)
+				v := samlRespRe.FindStringSubmatch(body)
+				if w.Code != 200 || m == nil || v == nil {
+					return fmt.Sprintf("round %d (%v): the IdP answered %d without a form", round+1, seq, w.Code)
+				}
+				form := url.Values{"SAMLResponse": {html.UnescapeString(v[1])}, "RelayState": {"relay"}}
+				pr := httptest.NewRequest("POST", html.UnescapeString(m[1]), strings.NewReader(form.Encode()))
+				pr.Header.Set("Content-Type", "application/x-www-form-urlencoded")
+				_ = pr.ParseForm()
+				a, err := sp.ParseResponse(pr, []string{req.ID})
+				if err != nil {
+					msg := err.Error()
+					if ie, ok := err.(*saml.InvalidResponseError); ok && ie.PrivateErr != nil {
+						msg = ie.PrivateErr.Error()
+					}
+					return fmt.Sprintf("round %d (%v): the SP, holding key %s now, rejects the response: %s", round+1, seq, keyName, msg)
+				}
+				if a.Subject == nil || a.Subject.NameID == nil || a.Subject.NameID.Value != sess.NameID {
+					return fmt.Sprintf("round %d (%v): name identifier altered", round+1, seq)
+				}
+			}
+			return "ok"
+		})
+		if res != "ok" {
+			why = "key=c07-not-accepted:key-rotation " + res
+		}
+		c.count("c07-key-rotation", strings.SplitN(res, " ", 2)[0])
+		c.emitOneWay("e2erotation", encStrListRaw(plan), strings.SplitN(res, " ", 2)[0], why)
 	}
 }
 
@@ -1376,6 +1532,7 @@ func (c *Ctx) e2e(cfg e2eCfg, conf idpConf, s sessS) {
 }
 
 func (c *Ctx) genC07() {
+	c.e2eKeyRotation()
 	// 1. character layer: etree writer vs model, encoding/xml reader vs model
 	nchar := 1500
 	if !c.quick() {
@@ -1800,6 +1957,7 @@ func (c *Ctx) genC08() {
 
 	c.encKeyRollover()
 	c.defaultRandomSource()
+	c.randomSourceFaults()
 	// 2. freshness: runs of encrypted responses under a counting reader; key and IV located in the stream
 	runs := 12
 	if !c.quick() {
@@ -2042,6 +2200,85 @@ func (c *Ctx) defaultRandomSource() {
 	}
 	c.count("c08-default-random-source", res)
 	c.emitOneWay("defaultrand", []string{fmt.Sprint(n)}, res, why)
+}
+
+// failingRand: a random source that delivers `good` bytes and then fails with `err`
+type failingRand struct {
+	good int
+	err  error
+}
+
+func (f *failingRand) Read(p []byte) (int, error) {
+	n := 0
+	for n < len(p) && f.good > 0 {
+		p[n] = byte(0x5a ^ f.good)
+		n++
+		f.good--
+	}
+	if n == len(p) {
+		return n, nil
+	}
+	return n, f.err
+}
+
+// randomSourceFaults: the SP publishes an encryption key and the random source of the encryption fails — at once, or after
+// the key, or after key and part of the IV — with errors of every kind (also the "does not exist" kind a missing
+// /dev/urandom produces). Whatever happens, the user's strings do not leave in clear: an error reply or an encrypted assertion.
+func (c *Ctx) randomSourceFaults() {
+	now := baseTime
+	saml.TimeNow = func() time.Time { return now }
+	saml.Clock = dsig.NewFakeClockAt(now)
+	saml.RandReader = &detReader{c: c}
+	defer func() { xmlenc.RandReader = &detReader{c: c} }()
+	entity := "https://sp.example.com/rand-faults"
+	kd := saml.KeyDescriptor{Use: "encryption"}
+	kd.KeyInfo.X509Data.X509Certificates = []saml.X509Certificate{{Data: base64.StdEncoding.EncodeToString(c.key("sp").Cert.Raw)}}
+	reg := &rollingRegistry{md: &saml.EntityDescriptor{EntityID: entity, SPSSODescriptors: []saml.SPSSODescriptor{{
+		SSODescriptor:             saml.SSODescriptor{RoleDescriptor: saml.RoleDescriptor{KeyDescriptors: []saml.KeyDescriptor{kd}}},
+		AssertionConsumerServices: []saml.IndexedEndpoint{{Binding: saml.HTTPPostBinding, Location: entity + "/acs", Index: 1}}}}}}
+	k := c.key("idp")
+	errs := map[string]error{
+		"eof":         io.ErrUnexpectedEOF,
+		"not-exist":   os.ErrNotExist,
+		"path-enoent": &fs.PathError{Op: "open", Path: "/dev/urandom", Err: syscall.ENOENT},
+		"wrapped":     fmt.Errorf("reading entropy: %w", fs.ErrNotExist),
+		"permission":  os.ErrPermission,
+		"plain":       errors.New("entropy source unavailable"),
+	}
+	var names []string
+	for n := range errs {
+		names = append(names, n)
+	}
+	sort.Strings(names)
+	for _, name := range names {
+		for _, good := range []int{0, 16, 24, 32, 84} {
+			idp := &saml.IdentityProvider{Key: k.Key, Certificate: k.Cert, Logger: logger.DefaultLogger, MetadataURL: mustURL(idpMetadataURL), SSOURL: mustURL(idpSSOURL),
+				ServiceProviderProvider: reg, SessionProvider: fixedSession{&saml.Session{ID: "sess-q", NameID: "SECRET-nameid", UserName: "SECRET-user", UserEmail: "SECRET-mail@example.com",
+					CreateTime: now, ExpireTime: now.Add(time.Hour), Index: "SECRET-index"}}}
+			xmlenc.RandReader = &failingRand{good: good, err: errs[name]}
+			why := ""
+			res := safely(func() string {
+				w := httptest.NewRecorder()
+				r, _ := http.NewRequest("GET", "https://idp.example.com/login/rand-faults", nil)
+				idp.ServeIDPInitiated(w, r, entity, "rs")
+				body := w.Body.Bytes()
+				clear := bytes.Contains(body, []byte("SECRET-"))
+				if v, n := inputValOf(body, "SAMLResponse"); n > 0 {
+					raw, _ := base64.StdEncoding.DecodeString(v)
+					clear = clear || bytes.Contains(raw, []byte("SECRET-"))
+				}
+				if clear {
+					return fmt.Sprintf("clear-%d", w.Code)
+				}
+				return fmt.Sprintf("no-clear-%d", w.Code)
+			})
+			if strings.HasPrefix(res, "clear") || strings.HasPrefix(res, "panic") {
+				why = fmt.Sprintf("key=c08-downgrade:random-source-fault the random source of the encryption failed (%s, after %d bytes) and the IdP answered with the user's strings in clear: %s", name, good, res)
+			}
+			c.count("c08-random-source-fault", name+"/"+strings.SplitN(res, "-", 2)[0])
+			c.emitOneWay("randfault", []string{encStr(name), fmt.Sprint(good)}, strings.TrimRight(res, "0123456789"), why)
+		}
+	}
 }
 
 type rollingRegistry struct{ md *saml.EntityDescriptor }
